@@ -472,8 +472,9 @@ class LDMService:
                 for subscription in self.subscriptions
                 if subscription.subscription_request.application_id == its_aid
             ]
-        for subscription in stale:
-            self.remove_subscription(subscription)
+            # In the same critical section: nobody sees the consumer gone but part of its subscriptions left.
+            for subscription in stale:
+                self.remove_subscription(subscription)
         return registered
 
     def delete_subscription(self, subscription_id: int) -> bool:
